@@ -243,6 +243,20 @@ func genC03(ctx *Ctx) {
 		"FALSE AND a", "TRUE OR a", "FALSE AND Array(1)", "a AND FALSE", "Choose(1-3,1,2)", "Choose(9223372036854775807,1,2)"} {
 		emitExpr(s, "special", true)
 	}
+	// scale (direct oracle only): thousands of pending operands, hundreds of nesting levels, long texts - still exactly one
+	// of a result and an error, never a panic
+	for _, n := range []int{40, 130, 520, 1030, 1100, 2100} {
+		rep := func(item, sep string, k int) string { return strings.TrimSuffix(strings.Repeat(item+sep, k), sep) }
+		for _, text := range []string{
+			"Array(" + rep("1", ", ", n) + ")", "Sum(" + rep("a", ", ", n) + ")", "1 IN Array(" + rep("2", ",", n) + ")", "Max(" + rep("1.5", ",", n) + ")",
+			strings.Repeat("1+(", n) + "1" + strings.Repeat(")", n), strings.Repeat("(", n) + "a" + strings.Repeat(")", n), rep("a", " + ", n),
+			strings.Repeat("Abs(", n) + "a" + strings.Repeat(")", n), strings.Repeat("- ", n) + "1", strings.Repeat("NOT ", n) + "TRUE", strings.Repeat("(", n),
+			"a" + strings.Repeat("[0]", n), strings.Repeat("Array(", min(n, 600)) + "1" + strings.Repeat(")", min(n, 600)), "'" + strings.Repeat("é", n) + "'[" + fmt.Sprint(n-1) + "]",
+		} {
+			env := c03Env(ctx)
+			ctx.OracleOnly(sx.L(sx.I(0), exprInput(text, env, nil), sx.L(), sx.B(false)), fmt.Sprintf("scale %d", n))
+		}
+	}
 	chars := []string{"a", "1", "'", "\"", "(", ")", "[", "]", ",", "+", "-", "*", "/", "<", ">", "=", "!", ".", " ", "é", "😀"}
 	depth := 2
 	if ctx.Thorough {
@@ -402,6 +416,17 @@ func runC03(in sx.SX) (sx.SX, string) {
 		if f := again("Clear"); f != "" {
 			return sx.L(sx.I(-995)), f
 		}
+		vars.Add(first)
+		vars.Add(last)
+		vars.ClearValues()
+		if f := again("ClearValues"); f != "" {
+			return sx.L(sx.I(-995)), f
+		}
+	}
+	// the calculator's own default variables with their values cleared
+	calc.DefaultVariables().ClearValues()
+	if r3, e3 := calc.Evaluate(); (r3 == nil) == (e3 == nil) {
+		return sx.L(sx.I(-995)), "after ClearValues on the default variables, Evaluate returned both or neither of a result and an error"
 	}
 	switch {
 	case err != nil && res != nil:
